@@ -121,8 +121,13 @@ def _first_stmt(fn):
 
 
 def _is_lock_guard(stmt):
-  return (isinstance(stmt, ast.If) and isinstance(stmt.test, ast.Call) and
-          isinstance(stmt.test.func, ast.Name) and stmt.test.func.id == 'config_is_locked'
+  if not isinstance(stmt, ast.If):
+    return False
+  t = stmt.test
+  reads_flag = (isinstance(t, ast.Call) and isinstance(t.func, ast.Name) and
+                t.func.id == 'config_is_locked' and not t.args) or \
+      (isinstance(t, ast.Name) and t.id == '_CONFIG_IS_LOCKED')
+  return (reads_flag
           and stmt.body and isinstance(stmt.body[-1], ast.Raise) and
           all(isinstance(b, (ast.Assign, ast.Raise)) for b in stmt.body))
 
@@ -233,10 +238,14 @@ def run(repo, pid):
   if pid == 'C17':
     fn = _fn(cfg, '_make_gin_wrapper.gin_wrapper')
     ok, det = False, 'no try around the call of the wrapped function'
+    outer = _fn(cfg, '_make_gin_wrapper')
+    wrapped = outer.args.args[0].arg if outer and outer.args.args else 'fn'
+
+    def _calls_wrapped(stmts):
+      return any(isinstance(m, ast.Call) and isinstance(m.func, ast.Name) and m.func.id == wrapped
+                 for s in stmts for m in ast.walk(s))
     for n in ast.walk(fn) if fn else []:
-      if isinstance(n, ast.Try) and any(
-          isinstance(s, ast.Return) and isinstance(s.value, ast.Call) and
-          isinstance(s.value.func, ast.Name) and s.value.func.id == 'fn' for s in n.body):
+      if isinstance(n, ast.Try) and _calls_wrapped(n.body):
         hs = [h.type.id if isinstance(h.type, ast.Name) else None for h in n.handlers]
         ok = hs == ['Exception']
         det = f'handlers: {hs}'
